@@ -186,7 +186,30 @@ func c09Run(c *fw.Ctx, idx int) {
 		}
 	}
 	if c.Guard("panic", func() {
-		switch r.Intn(6) {
+		switch r.Intn(7) {
+		case 6:
+			// the caller regroups the rings of a MultiPolygon through the table Endss()
+			// hands out: the last ring of one polygon becomes the first ring of the
+			// next (the sequence of end offsets stays what it was, so the geometry is
+			// as well formed as before)
+			mp, ok := t.(*geom.MultiPolygon)
+			if !ok {
+				return
+			}
+			es := mp.Endss()
+			for i := 0; i+1 < len(es) && i+1 < len(g.C3); i++ {
+				if len(es[i]) >= 2 && len(g.C3[i]) == len(es[i]) {
+					k := len(es[i]) - 1
+					moved := es[i][k]
+					es[i] = es[i][:k:k]
+					es[i+1] = append([]int{moved}, es[i+1]...)
+					ring := g.C3[i][k]
+					g.C3[i] = g.C3[i][:k:k]
+					g.C3[i+1] = append([][][]float64{ring}, g.C3[i+1]...)
+					what = "rings regrouped through Endss()"
+					break
+				}
+			}
 		case 4:
 			// exchange the geometry with another one of its type (most of the time with
 			// the same number of parts, of other sizes) and measure what it holds now
@@ -442,6 +465,46 @@ func c09Giants(c *fw.Ctx, idx int) {
 // the middle part of three, and as the only ring of the second polygon of a
 // MultiPolygon): a measure computed in blocks of whatever size has a length at
 // which its seam shows.
+// c09ManyParts: 2^18 +- a few unit squares as the polygons of a MultiPolygon, as
+// the rings of one Polygon and (open) as the lines of a MultiLineString: area =
+// number of squares (all counter-clockwise), length = 4 x that number.
+func c09ManyParts(c *fw.Ctx, idx int) {
+	k := 1<<uint(16+idx%4) + []int{-1, 0, 1, 2, 3, 7}[(idx/4)%6]
+	layout := []geom.Layout{geom.XY, geom.XYZ}[(idx/24)%2]
+	stride := layout.Stride()
+	flat := make([]float64, 0, k*5*stride)
+	ends := make([]int, 0, k)
+	endss := make([][]int, 0, k)
+	for i := 0; i < k; i++ {
+		x, y := float64(i%1000)*2, float64(i/1000)*2
+		for _, v := range [][2]float64{{x, y}, {x + 1, y}, {x + 1, y + 1}, {x, y + 1}, {x, y}} {
+			flat = append(flat, v[0], v[1])
+			for d := 2; d < stride; d++ {
+				flat = append(flat, 5)
+			}
+		}
+		ends = append(ends, len(flat))
+		endss = append(endss, []int{len(flat)})
+	}
+	c.SetInput(map[string]any{"shape": "unit squares on a grid, counter-clockwise", "squares": k, "layout": layout.String()})
+	var a1, l1, a2, l2, l3 float64
+	if c.Guard("panic", func() {
+		mp := geom.NewMultiPolygonFlat(layout, flat, endss)
+		a1, l1 = mp.Area(), mp.Length()
+		pg := geom.NewPolygonFlat(layout, flat, ends)
+		a2, l2 = pg.Area(), pg.Length()
+		l3 = geom.NewMultiLineStringFlat(layout, flat, ends).Length()
+	}) {
+		return
+	}
+	c.Eval(5)
+	c.Count("many_part_geometries")
+	c.Distinct(fmt.Sprintf("many-parts/%d/%s", k, layout))
+	if math.Abs(a1) != float64(k) || l1 != float64(4*k) || math.Abs(a2) != float64(k) || l2 != float64(4*k) || l3 != float64(4*k) {
+		c.Fail("area-error", "%d unit squares: MultiPolygon Area %v Length %v, Polygon (as rings) Area %v Length %v, MultiLineString Length %v; exact area %d, length %d", k, a1, l1, a2, l2, l3, k, 4*k)
+	}
+}
+
 func c09EveryLength(c *fw.Ctx, idx int) {
 	n := idx
 	for _, layout := range []geom.Layout{geom.XY, geom.XYZ} {
@@ -759,6 +822,7 @@ func init() {
 			{Name: "measures", Quick: 150000, Thorough: 5000000, Run: c09Run},
 			{Name: "huge-parts", Quick: 16, Thorough: 400, Chunk: 1, Run: c09Huge},
 			{Name: "giants", Quick: 32, Thorough: 64, Chunk: 1, Run: c09Giants},
+			{Name: "many-parts", Quick: 24, Thorough: 48, Chunk: 1, Run: c09ManyParts},
 			{Name: "every-length", Quick: 10001, Thorough: 40001, Chunk: 50, Run: c09EveryLength, Exhaustive: "closed-form line and rectangle at every number of vertices from 0 to the class count"},
 		},
 		Require: []string{"area_compared", "length_compared", "additivity_checked", "multipolygon_with_empty_polygon", "empty_component_before_nonempty", "area_positive_ccw", "area_negative_cw", "area_zero_checked"},
